@@ -3,6 +3,7 @@ package engine
 import (
 	"crypto/sha256"
 	"fmt"
+	"sort"
 
 	"github.com/nspcc-dev/neo-go/pkg/core/dao"
 	"github.com/nspcc-dev/neo-go/pkg/neotest"
@@ -33,7 +34,21 @@ func (m *voteModel) Clone() Model {
 	}
 	return c
 }
-func (m *voteModel) Key() []byte { return []byte{byte(m.introduced), byte(m.advances)} }
+
+// Key carries the whole model: if the contract ever deviates from it in a way storage does
+// not show at once (a ballot height), states reached along different paths must not merge.
+func (m *voteModel) Key() []byte {
+	ids := make([]string, 0, len(m.ballots))
+	for id := range m.ballots {
+		ids = append(ids, id)
+	}
+	sort.Strings(ids)
+	s := fmt.Sprint(m.introduced, m.advances, m.cfg, m.gasU, m.gasC, m.alpha, m.candX)
+	for _, id := range ids {
+		s += fmt.Sprint(id, m.ballots[id])
+	}
+	return []byte(s)
+}
 
 type voteOp struct {
 	kind  string // setA setB cheque alphaUpd candRm advance
@@ -52,7 +67,7 @@ type VoteDriver struct {
 
 func NewVoteDriver(n int, symmetry bool, full bool) *VoteDriver {
 	d := &VoteDriver{N: n, Symmetry: symmetry, MaxAdv: 3}
-	kinds := []string{"setA", "setB", "cheque", "alphaUpd", "candRm"}
+	kinds := []string{"setA", "setB", "cheque", "alphaUpd", "alphaShrink", "candRm"}
 	deltas := []uint32{1, 19, 20, 21}
 	if !full {
 		kinds = []string{"setA", "setB", "cheque"}
@@ -132,6 +147,8 @@ func (d *VoteDriver) OpName(_ *Node, i int) string {
 		return "cheque(idC,U,5) by " + d.who(o.who)
 	case "alphaUpd":
 		return "alphabetUpdate(idD,rotated list) by " + d.who(o.who)
+	case "alphaShrink":
+		return "alphabetUpdate(idE,list without its last key) by " + d.who(o.who)
 	}
 	return "innerRingCandidateRemove(X) by " + d.who(o.who)
 }
@@ -157,7 +174,7 @@ func (d *VoteDriver) Step(x *Exec, n *Node, i int) StepResult {
 	h := w.Contracts["neofs"].Hash
 	where := map[string]any{"op": o.kind, "n": d.N}
 	viol := func(class, msg string) StepResult {
-		return StepResult{V: Viol(class, msg, where), Outcome: "VIOLATION"}
+		return StepResult{V: Viol(class, msg, where), Outcome: "violation"}
 	}
 	if o.kind == "advance" {
 		nm.advances++
@@ -196,6 +213,17 @@ func (d *VoteDriver) Step(x *Exec, n *Node, i int) StepResult {
 			ks = append(ks, d.members[k].Pub())
 		}
 		scr = Script(h, "alphabetUpdate", voteID(id), ks)
+	case "alphaShrink":
+		id = "idE"
+		rotated = append([]int{}, m.alpha...)
+		if len(rotated) > 1 {
+			rotated = rotated[:len(rotated)-1]
+		}
+		var ks []any
+		for _, k := range rotated {
+			ks = append(ks, d.members[k].Pub())
+		}
+		scr = Script(h, "alphabetUpdate", voteID(id), ks)
 	case "candRm":
 		id = "rmX"
 		scr = Script(h, "innerRingCandidateRemove", d.x.Pub())
@@ -216,7 +244,12 @@ func (d *VoteDriver) Step(x *Exec, n *Node, i int) StepResult {
 		b, ok := m.ballots[id]
 		alive := ok && now-b.height <= 20
 		if alive && containsInt(b.voters, o.who) {
-			// a repeated vote counts once: nothing changes
+			// a repeated vote counts once: nothing changes - unless the Alphabet has shrunk in
+			// the meantime and the votes already cast now reach the (new) threshold
+			if len(b.voters) >= threshold {
+				fired = true
+				delete(nm.ballots, id)
+			}
 		} else {
 			var vs []int
 			if alive {
@@ -244,7 +277,7 @@ func (d *VoteDriver) Step(x *Exec, n *Node, i int) StepResult {
 			nm.gasC -= 5
 			expN = []Notif{{"GAS", "Transfer", []any{NX(h.BytesBE()), NX(d.u.Hash.BytesBE()), "i5"}},
 				{"neofs", "Cheque", []any{NX(voteID(id)), NX(d.u.Hash.BytesBE()), "i5", NXs("lock")}}}
-		case "alphaUpd":
+		case "alphaUpd", "alphaShrink":
 			nm.alpha = rotated
 			var ks []any
 			for _, k := range rotated {
@@ -261,7 +294,7 @@ func (d *VoteDriver) Step(x *Exec, n *Node, i int) StepResult {
 	if !isMember && o.who != -2 || (o.who == -2 && o.kind != "candRm") {
 		// anybody else is rejected and never counts
 		if obs.Halt || len(diff) > 0 {
-			where["method"] = map[string]string{"setA": "setConfig", "setB": "setConfig", "cheque": "cheque", "alphaUpd": "alphabetUpdate", "candRm": "innerRingCandidateRemove"}[o.kind]
+			where["method"] = map[string]string{"setA": "setConfig", "setB": "setConfig", "cheque": "cheque", "alphaUpd": "alphabetUpdate", "alphaShrink": "alphabetUpdate", "candRm": "innerRingCandidateRemove"}[o.kind]
 			return viol("stranger-vote-counted", fmt.Sprintf("%s: halt=%v, storage diff %v", d.OpName(n, i), obs.Halt, diff))
 		}
 		nn.M = m
